@@ -2,6 +2,7 @@ package libtime
 
 import (
 	"context"
+	"strings"
 	"time"
 
 	"github.com/luthersystems/elps/lisp"
@@ -22,6 +23,8 @@ func init() {
 	verifRegister("VerifC15_KRfcFrac", VerifC15_KRfcFrac)
 	verifRegister("VerifC15_KRfcSep", VerifC15_KRfcSep)
 	verifRegister("VerifC15_KRoundTrip", VerifC15_KRoundTrip)
+	verifRegister("VerifC10_KHostZone", VerifC10_KHostZone)
+	verifRegister("VerifC15_KParseFormat", VerifC15_KParseFormat)
 }
 
 // Range of seconds since the Unix epoch denoting years 0000..9999.
@@ -606,5 +609,110 @@ func VerifC15_KRoundTrip() {
 	} else {
 		vAssert(t2.Nanosecond() == 0, "the second-precision form drops the fraction")
 	}
+	vCover("end")
+}
+
+// C10 (nothing observable depends on the host): the time builtins give the same answers whatever
+// the HOST's time zone is.  time.Parse ties a timestamp to time.Local when its numeric offset is one
+// the host zone uses; here the host zone is a solver-chosen fixed zone (matching the written offset
+// or not) and what a program can observe — the formatted instant, the formatted result of adding a
+// duration — must be what a UTC host sees, and the parsed value must not carry the host's location.
+func VerifC10_KHostZone() {
+	env := verifEnv()
+	offs := []int{0, -18000, 3600, 20700}
+	txts := []string{"2023-03-11T12:00:00Z", "2023-03-11T12:00:00-05:00", "2023-03-11T12:00:00+01:00", "2023-03-11T12:00:00+05:45"}
+	ti := vConcInt(vndChoice("text", len(txts)))
+	hi := vConcInt(vndChoice("hostzone", len(offs)))
+	nano := vndBool("nano")
+	d := time.Duration(vndInt64("d"))
+	vAssume(d >= 0)
+	vAssume(d <= 400*24*time.Hour)
+	observe := func() (string, string, bool) {
+		var v *lisp.LVal
+		if nano {
+			v = BuiltinParseRFC3339Nano(env, verifArgs(lisp.String(txts[ti])))
+		} else {
+			v = BuiltinParseRFC3339(env, verifArgs(lisp.String(txts[ti])))
+		}
+		vAssert(v.Type != lisp.LError, "timestamp parses")
+		t, _ := Get(v)
+		f1 := BuiltinFormatRFC3339(env, verifArgs(v))
+		sum := BuiltinTimeAdd(env, verifArgs(v, Duration(d)))
+		vAssert(sum.Type != lisp.LError, "time-add succeeds")
+		t2, _ := Get(sum)
+		_, o1 := t.Zone()
+		_, o2 := t2.Zone()
+		return f1.Str, itoa15(o1) + "/" + itoa15(o2), t.Location() == time.Local && hi != 0
+	}
+	saved := time.Local
+	time.Local = time.UTC
+	fA, zA, _ := observe()
+	host := time.UTC
+	if offs[hi] != 0 {
+		host = time.FixedZone("HOST", offs[hi])
+	}
+	time.Local = host
+	fB, zB, tied := observe()
+	time.Local = saved
+	vObserve("text", txts[ti])
+	vAssert(fA == fB, "formatting a parsed instant does not depend on the host zone: "+fA+" / "+fB)
+	vAssert(zA == zB, "nor does the offset the instant (and a later instant computed from it) is presented in")
+	vAssert(!tied, "a parsed instant is not tied to the host's location")
+	vCover("end")
+}
+
+func itoa15(x int) string {
+	neg := x < 0
+	if neg {
+		x = -x
+	}
+	s := ""
+	for {
+		s = string(rune('0'+x%10)) + s
+		x /= 10
+		if x == 0 {
+			break
+		}
+	}
+	if neg {
+		s = "-" + s
+	}
+	return s
+}
+
+// The other direction of the round trip: a canonical RFC 3339 text (second precision, two-digit
+// offset fields) parses, formats back to THE SAME TEXT — in particular with the offset it was
+// written with — and that text parses again to an equal instant.  Texts at the edges of the year
+// range, where presenting the instant in another offset would leave the range.
+func VerifC15_KParseFormat() {
+	env := verifEnv()
+	dates := []string{"0000-01-01T00:00:00", "9999-12-31T23:59:59", "2024-02-29T12:30:45", "1970-01-01T00:00:00", "0000-12-31T23:59:59", "9999-01-01T00:00:00"}
+	offs := []string{"Z", "+01:00", "-01:00", "+05:45", "-12:00", "+14:00", "+00:00", "-00:30"}
+	text := dates[vConcInt(vndChoice("date", len(dates)))] + offs[vConcInt(vndChoice("offset", len(offs)))]
+	nano := vndBool("nano")
+	parse := func(s string) *lisp.LVal {
+		if nano {
+			return BuiltinParseRFC3339Nano(env, verifArgs(lisp.String(s)))
+		}
+		return BuiltinParseRFC3339(env, verifArgs(lisp.String(s)))
+	}
+	v := parse(text)
+	vObserve("text", text)
+	vAssert(v.Type != lisp.LError, "a well-formed timestamp of the year range parses, with any numeric offset")
+	var f *lisp.LVal
+	if nano {
+		f = BuiltinFormatRFC3339Nano(env, verifArgs(v))
+	} else {
+		f = BuiltinFormatRFC3339(env, verifArgs(v))
+	}
+	vAssert(f.Type == lisp.LString, "formats")
+	want := text
+	if strings.HasSuffix(text, "+00:00") {
+		want = strings.TrimSuffix(text, "+00:00") + "Z"
+	}
+	vAssert(f.Str == want, "formatting a parsed instant gives back the text it was parsed from: "+f.Str)
+	v2 := parse(f.Str)
+	vAssert(v2.Type != lisp.LError, "and that text parses again")
+	vAssert(verifBool(BuiltinTimeEq(env, verifArgs(v, v2))), "to an equal instant")
 	vCover("end")
 }
